@@ -26,7 +26,7 @@ Lemma KC_recombine sp kids : Forall KC kids -> KC (recombine (Node sp PEval kids
 Proof.
   intros HK.
   assert (Hev : KC (Node sp PEval kids)) by (constructor; auto; intros e; discriminate).
-  destruct sp as [z|e0|p cs|cs|c|cs]; cbn [recombine]; auto.
+  destruct sp as [z|e0|p cs|cs|c|cs|cs]; cbn [recombine]; auto.
   - destruct (first_ko kids) as [e|] eqn:Ek.
     + constructor; auto. intros e' [= <-]. right. now apply first_ko_in.
     + destruct (all_ok kids); auto. constructor; auto. intros e'; discriminate.
@@ -42,6 +42,7 @@ Proof.
   - destruct (forallb kid_done kids); auto. destruct (first_ko kids) as [e|] eqn:Ek.
     + constructor; auto. intros e' [= <-]. right. now apply first_ko_in.
     + destruct (all_ok kids); auto. constructor; auto. intros e'; discriminate.
+  - destruct (forallb kid_done kids); auto. destruct (all_ok kids); constructor; auto; intros e'; discriminate.
 Qed.
 
 Lemma KC_idle s : KC (idle s).
@@ -55,12 +56,13 @@ Qed.
 
 Lemma KC_finish n : KC n -> KC (do_finish n).
 Proof.
-  destruct n as [sp ph kids]. intros H. destruct ph; try exact H. destruct sp as [z|e|p cs|cs|c|cs]; cbn [do_finish].
+  destruct n as [sp ph kids]. intros H. destruct ph; try exact H. destruct sp as [z|e|p cs|cs|c|cs|cs]; cbn [do_finish].
   - constructor; [constructor|intros e; discriminate].
   - constructor; [constructor|]. intros e' [= <-]. now left.
   - apply KC_recombine. apply Forall_forall. intros x Hx. apply in_map_iff in Hx. destruct Hx as (c & <- & _). apply KC_idle.
   - apply KC_recombine. constructor.
   - constructor; [constructor; [apply KC_idle|constructor]|intros e; discriminate].
+  - apply KC_recombine. apply Forall_forall. intros x Hx. apply in_map_iff in Hx. destruct Hx as (c & <- & _). apply KC_idle.
   - apply KC_recombine. apply Forall_forall. intros x Hx. apply in_map_iff in Hx. destruct Hx as (c & <- & _). apply KC_idle.
 Qed.
 
